@@ -217,7 +217,8 @@ func CheckRecRules(r *verifsim.Run, t *Trace, p RecParams) {
 					continue
 				}
 				pos++
-				if e.Motion {
+				// a motion frame is a frame in which motion was detected, whether or not the processor announced it
+				if e.Motion || (e.HasTruth && e.Truth) {
 					lastMotion = pos
 				}
 				written := false
